@@ -127,6 +127,11 @@ def try_replay(run, o):
             else:
                 t = z3.FreshConst(so.z3(), p)
             args[p] = decode(m, t, so)
+        logical = {}
+        for p, so in (c.logical or {}).items():
+            consts = [d for d in m.decls() if d.name().split("!")[0] == p and d.arity() == 0]
+            t = consts[0]() if consts else z3.FreshConst(so.z3(), p)
+            logical[p] = decode(m, t, so)
         globs = {}
         for g in c.modifies:
             if g.startswith("global:"):
@@ -138,20 +143,22 @@ def try_replay(run, o):
         r = call_real(c.qn, args, globs, run.repo.root)
         if r.get("outcome") == "error":
             return False, "replay runner failed: " + r.get("detail", ""), args
-        ok, detail = check_concrete(run, ex, c, args, globs, r)
-        return (not ok), detail, dict(args=args, globals=globs, observed=r)
+        ok, detail = check_concrete(run, ex, c, args, globs, r, logical)
+        return (not ok), detail, dict(args=args, globals=globs, logical=logical, observed=r)
     except Unsupported as e:
         return False, "replay not possible: %s" % e, None
     except Exception as e:  # replay must never turn into a checker crash
         return False, "replay crashed: %r" % (e,), None
 
 
-def check_concrete(run, ex, c, args, globs, r):
+def check_concrete(run, ex, c, args, globs, r, logical=None):
     "evaluate the contract on the concrete inputs and the observed outcome of the real function"
     from .sym import State
     from .sym_call import State_with_top
     st = State_with_top(ex.top0)
     env = {p: from_typed(args[p], so) for p, so in c.params.items()}
+    for p, so in (c.logical or {}).items():
+        env[p] = from_typed((logical or {})[p], so)
     for gq, j in globs.items():
         st.glob[gq] = from_typed(j, run.reg.globals[gq])
     pre = st.copy()
@@ -163,9 +170,10 @@ def check_concrete(run, ex, c, args, globs, r):
 
     def holds(expr, s, e, pre_):
         g = truth(ex.eval_spec(expr, s, e, pre_, c.module))
+        from .ops import DEFAULT_AXIOMS
         sol = z3.Solver()
         sol.set("timeout", 20000)
-        for a in ex.axioms:
+        for a in list(DEFAULT_AXIOMS) + list(ex.axioms):
             sol.add(a)
         for a in s.pc:
             sol.add(a)
@@ -316,13 +324,19 @@ def concrete_search(run, c, ex, n_cases, seed):
     gl = [g[7:] for g in c.modifies if g.startswith("global:") and value_level(run.reg.globals[g[7:]])]
     while len(cases) < n_cases and tries < n_cases * 5:
         tries += 1
-        args = {p: gen_value(so, rnd, pools, name=p) for p, so in c.params.items()}
+        logical = {p: gen_value(so, rnd, pools, name=p) for p, so in (c.logical or {}).items()}
+        if c.logical:
+            args = solve_params(run, ex, c, logical)
+            if args is None:
+                continue
+        else:
+            args = {p: gen_value(so, rnd, pools, name=p) for p, so in c.params.items()}
         globs = {g: gen_value(run.reg.globals[g], rnd, pools, name=g.split(".")[-1]) for g in gl}
         key = json.dumps([args, globs], sort_keys=True)
         if key in seen:
             continue
         seen.add(key)
-        cases.append(dict(args=args, globals=globs))
+        cases.append(dict(args=args, globals=globs, logical=logical))
     req = dict(qn=c.qn, cases=cases)
     oracle = getattr(c, "oracle", None)
     if oracle:
@@ -339,31 +353,63 @@ def concrete_search(run, c, ex, n_cases, seed):
         if r.get("outcome") == "error":
             continue
         try:
-            if not requires_hold(run, ex, c, case["args"], case["globals"]):
+            if not requires_hold(run, ex, c, case["args"], case["globals"], case.get("logical")):
                 continue
             evaluated += 1
             if oracle:
                 if r.get("oracle_ok") is False:
                     return True, "oracle %s: %s" % (oracle, r.get("oracle_detail")), dict(args=case["args"], globals=case["globals"], observed=r), evaluated
                 continue
-            ok, detail = check_concrete(run, ex, c, case["args"], case["globals"], r)
+            ok, detail = check_concrete(run, ex, c, case["args"], case["globals"], r, case.get("logical"))
             if not ok:
-                return True, detail, dict(args=case["args"], globals=case["globals"], observed=r), evaluated
+                return True, detail, dict(args=case["args"], globals=case["globals"], logical=case.get("logical"), observed=r), evaluated
         except Unsupported:
             continue
     return False, "no failing input among %d generated inputs" % evaluated, None, evaluated
 
 
-def requires_hold(run, ex, c, args, globs):
+def solve_params(run, ex, c, logical):
+    "theorem contracts: choose the logical variables, then let the solver pick parameters that satisfy `requires`"
     from .sym_call import State_with_top
     st = State_with_top(ex.top0)
+    env = {p: from_typed(logical[p], so) for p, so in c.logical.items()}
+    ps = {}
+    for p, so in c.params.items():
+        ps[p] = fresh(so, "sp_" + p)
+        env[p] = ps[p]
+    sol = z3.Solver()
+    sol.set("timeout", 5000)
+    from .ops import DEFAULT_AXIOMS
+    for a in list(DEFAULT_AXIOMS) + list(ex.axioms):
+        sol.add(a)
+    for lab, exx in c.requires:
+        sol.add(truth(ex.eval_spec(exx, st, env, None, c.module)))
+    for a in st.pc:
+        sol.add(a)
+    if sol.check() != z3.sat:
+        return None
+    m = sol.model()
+    try:
+        return {p: decode(m, ps[p].t, so) for p, so in c.params.items()}
+    except Exception:
+        return None
+
+
+def requires_hold(run, ex, c, args, globs, logical=None):
+    from .sym_call import State_with_top
+    from .ops import DEFAULT_AXIOMS
+    st = State_with_top(ex.top0)
     env = {p: from_typed(args[p], so) for p, so in c.params.items()}
+    for p, so in (c.logical or {}).items():
+        env[p] = from_typed((logical or {})[p], so)
     for gq, j in globs.items():
         st.glob[gq] = from_typed(j, run.reg.globals[gq])
     for lab, exx in c.requires:
         g = truth(ex.eval_spec(exx, st, env, None, c.module))
         sol = z3.Solver()
         sol.set("timeout", 5000)
+        for a in list(DEFAULT_AXIOMS) + list(ex.axioms):
+            sol.add(a)
         for a in st.pc:
             sol.add(a)
         sol.add(z3.Not(g))
